@@ -6,5 +6,7 @@ git -C /repo apply /verif/seeded/$id/patch.diff || exit 2
 cp /verif/evidence/$prop.json /verif/_build/evidence_$prop.bak 2>/dev/null
 (cd /verif && ./run.sh $prop $tier > /verif/_build/seed_$id.$prop.log 2>&1; echo "exit=$?" >> /verif/_build/seed_$id.$prop.log)
 git -C /repo checkout -- .
+# the tables were regenerated from the patched tree: regenerate them from the clean one
+/verif/_build/bin/translator /repo /verif/_build/Tables.v.clean >/dev/null 2>&1 && { cmp -s /verif/_build/Tables.v.clean /verif/coq/Generated/Tables.v || cp /verif/_build/Tables.v.clean /verif/coq/Generated/Tables.v; }
 cp /verif/_build/evidence_$prop.bak /verif/evidence/$prop.json 2>/dev/null
 grep -E "VIOLATION|KNOWN|exit=|INFRA" /verif/_build/seed_$id.$prop.log | head -5
